@@ -87,25 +87,33 @@ class PackCopier(FileStorageFormatter):
         h = self._read_txn_header(tpos)
         tend = tpos + h.tlen
         pos = self._file.tell()
+        # A transaction can hold several records of the oid (two stores, or
+        # two undos of one transaction): like load and
+        # FileStorage._data_find, use the last one.
+        found = 0
         while pos < tend:
             h = self._read_data_header(pos)
             if h.oid == oid:
-                # Make sure this looks like the right data record
-                if h.plen == 0:
-                    # This is also a backpointer.  Gotta trust it.
-                    return pos
-                if h.plen != len(data):
-                    # The expected data doesn't match what's in the
-                    # backpointer.  Something is wrong.
-                    logger.error("Mismatch between data and backpointer at %d",
-                                 pos)
-                    return 0
-                _data = self._file.read(h.plen)
-                if data != _data:
-                    return 0
-                return pos
+                found = pos
             pos += h.recordlen()
-        return 0
+        if not found:
+            return 0
+        pos = found
+        h = self._read_data_header(pos)
+        # Make sure this looks like the right data record
+        if h.plen == 0:
+            # This is also a backpointer.  Gotta trust it.
+            return pos
+        if data is None or h.plen != len(data):
+            # The expected data doesn't match what's in the
+            # backpointer.  Something is wrong.
+            logger.error("Mismatch between data and backpointer at %d",
+                         pos)
+            return 0
+        _data = self._file.read(h.plen)
+        if data != _data:
+            return 0
+        return pos
 
     def copy(self, oid, serial, data, prev_txn, txnpos, datapos):
         prev_pos = self._resolve_backpointer(prev_txn, oid, data)
